@@ -13,11 +13,54 @@ import (
 	"storj.io/drpc/verifsim"
 )
 
-// Aliases for the non-blocking parts of sync.
-type (
-	Map  = sync.Map
-	Pool = sync.Pool
-)
+// Map is sync.Map (non-blocking; iteration order is not relied upon).
+type Map = sync.Map
+
+// Pool replaces sync.Pool. The real pool's per-P caches and GC clearing make
+// "does Get return a recycled object" depend on the Go scheduler; under the
+// simulation it is a deterministic LIFO that always recycles, which is the
+// behaviour a correct caller has to tolerate anyway.
+type Pool struct {
+	New   func() any
+	real  sync.Pool
+	items []any
+}
+
+// Get returns a recycled object if there is one, else New().
+func (p *Pool) Get() any {
+	rt, _ := verifsim.Current()
+	if rt == nil {
+		p.real.New = p.New
+		return p.real.Get()
+	}
+	rt.Mu.Lock()
+	if n := len(p.items); n > 0 {
+		x := p.items[n-1]
+		p.items = p.items[:n-1]
+		rt.Mu.Unlock()
+		return x
+	}
+	rt.Mu.Unlock()
+	if p.New != nil {
+		return p.New()
+	}
+	return nil
+}
+
+// Put recycles x.
+func (p *Pool) Put(x any) {
+	rt, _ := verifsim.Current()
+	if rt == nil {
+		p.real.Put(x)
+		return
+	}
+	if x == nil {
+		return
+	}
+	rt.Mu.Lock()
+	p.items = append(p.items, x)
+	rt.Mu.Unlock()
+}
 
 // Locker is sync.Locker.
 type Locker = sync.Locker
